@@ -11,7 +11,7 @@ from sa.load import AnalysisError, Repo, loc, where_of
 from sa.report import Run
 from sa.scipp_model import Model
 from sa.term import Rat
-from sa.units import Unit
+from sa.units import DIMENSIONLESS, Unit
 from sa.witness import WitnessInterp, WitnessModel, items_of, sym_scalar
 from spec import cif11
 
@@ -64,6 +64,29 @@ class Col(list):
         return iter([StrVar(x) if isinstance(x, str) else x for x in list.__iter__(self)])
 
 
+class NumVar:
+    """Stand-in for a 0-d floating-point variable, with or without a variance; the numbers themselves are abstract."""
+    ndim = 0
+    dtype = 'float64'
+    dims = ()
+    shape = ()
+    unit = None
+
+    def __init__(self, interp, model, has_variance: bool):
+        self.value = model.new(interp, Rat.sym('number', positive=False), DIMENSIONLESS, 'float64')
+        self.value.kind = 'raw'
+        self.value.members['prints_as'] = NUMBER_TEXT
+        self.variance = None
+        if has_variance:
+            self.variance = model.new(interp, Rat.sym('variance_of_number', positive=True), DIMENSIONLESS, 'float64')
+            self.variance.kind = 'raw'
+        self.values, self.variances = self.value, self.variance
+
+
+NUMBER_TEXT = '-3.74e-15'          # what str() of the abstract number stands for
+COMPACT_TEXT = '-3.74(2)e-15'      # what scipp's compact format of (number, variance) stands for
+
+
 class Person:
     def __init__(self, name, role=None, corresponding=False, email=None, address=None, orcid_id=None):
         self.name, self.role, self.corresponding = name, role, corresponding
@@ -71,9 +94,34 @@ class Person:
 
 
 class ValueModel(Model):
-    """Plain model that knows the 0-d string variable stand-in."""
+    """Plain model that knows the 0-d string variable stand-in and how abstract numbers print."""
+
+    def sc_scalar(self, interp, args, kwargs, node):
+        val = args[0] if args else kwargs.get('value')
+        var = kwargs.get('variance')
+        r = super().sc_scalar(interp, args, kwargs, node)
+        if isinstance(val, SVar) and val.members.get('prints_as'):
+            r.members['prints_as'] = COMPACT_TEXT if isinstance(var, SVar) else val.members['prints_as']
+            r.members['compact'] = True
+        return r
+
+    def format_value(self, interp, val, spec, conversion, node):
+        if isinstance(val, SVar) and val.members.get('prints_as'):
+            if val.members.get('compact') and spec == 'c':
+                return val.members['prints_as']
+            if spec in ('', None):
+                return val.members['prints_as'] if not val.members.get('compact') else None
+        return None
+
+    def _builtin(self, interp, name, args, kwargs, node):
+        if name in ('str', 'repr') and len(args) == 1 and isinstance(args[0], SVar) and args[0].members.get('prints_as') and not args[0].members.get('compact'):
+            return args[0].members['prints_as']
+        return super()._builtin(interp, name, args, kwargs, node)
 
     def _isinstance(self, interp, x, t, node):
+        if isinstance(x, NumVar):
+            ts = t if isinstance(t, tuple) else (t,)
+            return any(getattr(t_, 'path', '') == 'scipp.Variable' for t_ in ts)
         if isinstance(x, StrVar):
             ts = t if isinstance(t, tuple) else (t,)
             return any(getattr(t_, 'path', '') == 'scipp.Variable' for t_ in ts)
@@ -408,6 +456,39 @@ def run(tier: str) -> Run:
         ids = cols.get('pd_calib_d_to_tof.id')
         ids_v = [x.members.get('concrete') for x in (items_of(ids) or [])] if isinstance(ids, SVar) else getattr(ids, 'members', {}).get('py_values')
         r3.check(ok and ids_v == ['ZERO', 'DIFC', 'DIFA'], inst, kwhere, {'columns': list(cols), 'ids': ids_v}, key='calib-su')
+
+    # ---- R5 numbers with a standard uncertainty ------------------------------------------------------------
+    r5 = run.rule('R5', 'a number supplied with a variance is written in the compact value(su) notation on every path, one supplied without is written '
+                        'as the number alone (whatever its magnitude: the numbers are abstract)', 2)
+    for has_var in (True, False):
+        T.reset()
+        nm = ValueModel()
+        nit = Interp(repo, nm)
+        texts = []
+
+        def go_num(i, has_var=has_var, texts=texts):
+            sink = Sink()
+            ch = i.construct(chunk_cls, [{'k': NumVar(i, nm, has_var), 'after': 'z'}], {}, None)
+            try:
+                return i.call_function(i.find_method(ch.cls, 'write'), [sink], {}, bound=ch)
+            finally:
+                texts.append(sink.text())
+        outs = nit.run_all(go_num)
+        want = COMPACT_TEXT if has_var else NUMBER_TEXT
+        probs = []
+        for o, text in zip(outs, texts, strict=False):
+            if o.kind != 'return':
+                probs.append({'outcome': (o.kind, o.exc_type, o.where)})
+                continue
+            try:
+                got = cif11.parse_pairs(text)
+            except cif11.CifSyntaxError as ex:
+                probs.append({'written': text, 'problem': f'not valid CIF: {ex}'})
+                continue
+            if not (len(got) == 2 and got[0] == ('pair', '_k', want)):
+                probs.append({'written': text, 'expected_value': want, 'decisions_on_this_path': [w_ for _, _, w_ in o.conditions][-3:]})
+        r5.check(bool(outs) and not probs, f'0-d number {"with" if has_var else "without"} a variance in a tag-value pair', where_of(repo, MOD, '_format_value', 'Chunk.write'),
+                 {'paths': len(outs), 'problems': probs[:2]}, key=f'number:{has_var}')
 
     # ---- R4 author ids ----------------------------------------------------------------------
     r4 = run.rule('R4', 'author ids are unique across both author categories; every role id is an author id', 3)
